@@ -93,7 +93,9 @@ theorem xorLanes_getElem (s : State) (m : List UInt8) (n : Nat) (hn : n ≤ 25) 
 
 theorem xorBlock_getElem (s : State) (blk : List UInt8) (j : Nat) (hj : j < 25) :
     (xorBlock s blk)[j] = if 8 * j < blk.length then s[j] ^^^ le64 (blk.drop (8 * j)) else s[j] := by
-  simp [xorBlock, Vector.getElem_ofFn]
+  unfold xorBlock
+  rw [SqiProofs.Keccak.mk25_getElem _ j hj]
+  simp [Vector.getD, hj]
 
 theorem load64_eq_le64 (x : List UInt8) : load64 x = le64 x := rfl
 
